@@ -61,6 +61,9 @@ def run_one(prop_id, job, scratch, timeout):
     cmd = [PY, "-B", "-m", "bvm.shard", prop_id, spec_file, out_file]
     if job.get("dev"):
         cmd = [PY, "-B", "-X", "dev", "-m", "bvm.shard", prop_id, spec_file, out_file]
+    if job.get("optimize") or os.environ.get("BVM_OPTIMIZE_ALL"):
+        # the interpreter run with -O: `assert` statements of the code under test (and of the harness) are compiled away
+        cmd = [PY, "-B", "-O", "-m", "bvm.shard", prop_id, spec_file, out_file]
     t0 = time.time()
     try:
         p = subprocess.run(
@@ -111,6 +114,13 @@ def main(argv=None):
                 j.setdefault("tier", tier)
                 j.setdefault("seed", seed)
                 jobs.append(j)
+            # a few shards of the plan are run a second time with the interpreter in -O mode (assert statements of the code
+            # under test compiled away): names listed in the property's OPTIMIZED_SHARDS
+            for nm in getattr(mod, "OPTIMIZED_SHARDS", ()):
+                for j in list(jobs):
+                    if j["name"] == nm:
+                        j2 = dict(j, name=nm + "_O", optimize=True)
+                        jobs.append(j2)
         timeout = getattr(mod, "TIMEOUT", {}).get(tier, 3600 if tier == "quick" else 6 * 3600)
         results = []
         with concurrent.futures.ThreadPoolExecutor(max_workers=args.jobs) as ex:
